@@ -43,7 +43,10 @@ def install(ctx):
                 return True
         for par in (additional or {}):
             got = np.asarray(result[par], float)
-            want = np.array([additional[par][n] for n in names], float)
+            src_ = CUR.get('additional_ref', {}).get(par, additional[par])      # (what the caller put in, not what is there after the call)
+            if not isinstance(src_, dict):
+                continue
+            want = np.array([src_[n] for n in names], float)
             if not probe.same(got, want):
                 ctx.violation('filter_table:additional-not-by-name', 'an additional parameter is not attached by model name',
                               dict(wit, column=par, got=got[:6], expected=want[:6]))
@@ -266,6 +269,16 @@ def check_extract(ctx, files, recs, sel, truth, wit, table_cols, header=True):
     ctx.event('text:extract_parameters')
 
 
+def global_q(name):
+    """a quantity that depends on the model name only (so that one dictionary can cover the models of every package)"""
+    import hashlib
+    return float(int.from_bytes(hashlib.md5(str(name).strip().encode()).digest()[:3], 'big') % 90000) / 8.0 + 1.0
+
+
+GLOBAL_INNER = {}
+GLOBAL_ADD = {'GLOBALQ': GLOBAL_INNER}
+
+
 def run(ctx):
     rng = ctx.rng
     install(ctx)
@@ -277,7 +290,7 @@ def run(ctx):
     ctx.assume('printed precision: %10.3e -> 5e-4 relative, %10.3f -> 5e-4 absolute', 'selectors whose threshold equals an attained value are skipped (C05 don\'t-care)',
                'parameter values are position-encoding: (model+1)*10^column, so any row mix-up is visible at printed precision')
     ctx.require_events('writers:called-with-positional-arguments', 'FitInfo.filter_table:post', 'text:write_parameters', 'text:write_parameter_ranges', 'text:extract_parameters', 'plot_params:observed', 'history:other-package-fitted-in-between', 'listing:results-already-cut-down')
-    ctx.require_regimes('additional:values-exactly-zero', 'additional:ints-and-floats', 'perm:identity', 'perm:reversed', 'perm:random', 'perm:name-sorted', 'selected:0', 'selected:1', 'selected:all', 'additional', 'additional:several', 'parameter:nan', 'extract:subset',
+    ctx.require_regimes('additional:one-dictionary-for-every-package', 'additional:values-exactly-zero', 'additional:ints-and-floats', 'perm:identity', 'perm:reversed', 'perm:random', 'perm:name-sorted', 'selected:0', 'selected:1', 'selected:all', 'additional', 'additional:several', 'parameter:nan', 'extract:subset',
                         'input:file', 'input:object', 'input:list')
     n_pk = 8 if ctx.quick else 40
     did_plot = False
@@ -373,6 +386,16 @@ def run(ctx):
                         additional['MID'] = {n: float(0.5 + i) for i, n in enumerate(names)}
                         ctx.regime('additional:several')
                     ctx.regime('additional')
+                elif (isel + ip) % 3 == 1:
+                    # one dictionary that the caller keeps for the whole session and hands to every listing, whatever package the
+                    # results come from: it covers the models of every package seen so far (a quantity that depends on the name only)
+                    GLOBAL_INNER.update({n: global_q(n) for n in names})
+                    additional = GLOBAL_ADD
+                    ctx.regime('additional:one-dictionary-for-every-package')
+                # what the listings must show is taken from a copy made before the calls
+                CUR.update(additional_ref={})
+                additional_ref = {k_: ({n: global_q(n) for n in names} if k_ == 'GLOBALQ' else dict(v_)) for k_, v_ in additional.items()}
+                CUR.update(additional_ref=additional_ref)
                 wit = dict(perm=kind, selector=sel, input=form, n_models=n_models, columns=colnames, names=names)
                 kept = [expected_kept(r, sel)[0] for r in rr]
                 for c_ in kept:
@@ -385,7 +408,7 @@ def run(ctx):
                     else:          # positional, in the documented order
                         write_parameters(inp, out + '.wp', sel, additional)
                         ctx.event('writers:called-with-positional-arguments')
-                    check_write_parameters(ctx, open(out + '.wp').read(), rr, sel, truth, additional, dict(wit, writer='write_parameters'))
+                    check_write_parameters(ctx, open(out + '.wp').read(), rr, sel, truth, additional_ref, dict(wit, writer='write_parameters'))
                 except Exception as exc:
                     ctx.raised(exc, 'write_parameters:raised:%s' % type(exc).__name__, 'write_parameters raised: %r' % (exc,), wit)
                 try:
@@ -393,7 +416,7 @@ def run(ctx):
                         write_parameter_ranges(inp, out + '.wr', select_format=sel, additional=additional)
                     else:
                         write_parameter_ranges(inp, out + '.wr', sel, additional)
-                    check_ranges(ctx, open(out + '.wr').read(), rr, sel, truth, additional, dict(wit, writer='write_parameter_ranges'))
+                    check_ranges(ctx, open(out + '.wr').read(), rr, sel, truth, additional_ref, dict(wit, writer='write_parameter_ranges'))
                 except Exception as exc:
                     ctx.raised(exc, 'write_parameter_ranges:raised:%s' % type(exc).__name__, 'write_parameter_ranges raised: %r' % (exc,), wit)
                 try:
